@@ -270,6 +270,7 @@ fn scen_doc() -> crate::doc::Doc {
         pad: None,
         crlf: false,
         bom: false,
+        exact_size: None,
     }
 }
 
